@@ -42,7 +42,7 @@ import warnings
 # an early failure legitimately leaves sibling coroutines un-awaited (lazy coroutines)
 warnings.filterwarnings("ignore", category=RuntimeWarning, message="coroutine .* was never awaited")
 
-CONFIGS = ["bexec", "brt", "aio", "aiot", "pool"]
+CONFIGS = ["bexec", "brt", "aio", "aiot", "pool", "poole"]  # poole: pool + calls that finish before submit returns
 MODES = ["S", "P", "C"]
 SHAPES = {  # shape name -> (GraphQL type, non-null?, kind)
     "i": ("Int", False, "int"), "in": ("Int!", True, "int"),
@@ -54,14 +54,24 @@ SHAPES = {  # shape name -> (GraphQL type, non-null?, kind)
 }
 
 
-def _sdl():
+# schema layouts (program["layout"], default "distinct"): the property quantifies over all
+# mutation operations whatever the schema looks like
+#   distinct   query root Q, mutation root M, nested objects T (the three have the same fields)
+#   shared     one ObjectType T is query root, mutation root and the nested object type
+#   mutnested  query root Q; the mutation root T is also the type of every nested object
+LAYOUTS = {"distinct": ("Q", "M", ["Q", "M", "T"]), "shared": ("T", "T", ["T"]),
+           "mutnested": ("Q", "T", ["Q", "T"])}
+
+
+def _sdl(layout="distinct"):
     fields = "\n".join("  %s%s: %s" % (sh, m, SHAPES[sh][0]) for sh in SHAPES for m in MODES)
-    return ("schema { query: Q mutation: M }\n"
-            "type Q {\n%s\n}\ntype M {\n%s\n}\ntype T {\n%s\n}\n" % (fields, fields, fields))
+    q, mu, types = LAYOUTS[layout]
+    return ("schema { query: %s mutation: %s }\n" % (q, mu)
+            + "".join("type %s {\n%s\n}\n" % (t, fields) for t in types))
 
 
 def deferred(fld, config):
-    if config in ("pool", "aiot"):
+    if config in ("pool", "poole", "aiot"):
         return fld["m"] in ("P", "C")
     if config == "aio":
         return fld["m"] == "C"
@@ -230,12 +240,12 @@ class _NullCtl:
 _SCHEMAS = {}
 
 
-def _schema(config, run_box):
-    """one schema per configuration (resolvers dispatch to the current run)"""
-    if config in _SCHEMAS:
-        return _SCHEMAS[config]
-    schema = build_schema(_sdl())
-    for tname in ("Q", "M", "T"):
+def _schema(config, run_box, layout="distinct"):
+    """one schema per configuration and layout (resolvers dispatch to the current run)"""
+    if (config, layout) in _SCHEMAS:
+        return _SCHEMAS[(config, layout)]
+    schema = build_schema(_sdl(layout))
+    for tname in LAYOUTS[layout][2]:
         for sh in SHAPES:
             for m in ("P", "C"):
                 if config in ("aio", "aiot") and m == "C":
@@ -251,7 +261,7 @@ def _schema(config, run_box):
                     def r(root, ctx, info, **a):
                         return run_box[0].plain(root, ctx, info, **a)
                 schema.register_resolver(tname, sh + m, r)
-    _SCHEMAS[config] = schema
+    _SCHEMAS[(config, layout)] = schema
     return schema
 
 
@@ -264,7 +274,7 @@ def _validated(schema, program, config):
     the validated Document with validators=[] (validation is schedule-independent
     and dominates the run time otherwise)"""
     text = doc_of(program)
-    key = (config, text)
+    key = (config, program.get("layout", "distinct"), text)
     if key not in _DOCS:
         if len(_DOCS) > 2000:
             _DOCS.clear()
@@ -334,6 +344,7 @@ def _finish_obs(ctl, state, first, schedule, extra=None):
     obs["events"] = [[k, _label(lb)] for k, lb in ctl.events]
     obs["schedule"] = [_label(lb) for lb in schedule]
     obs["leftover"] = extra.get("leftover", 0) if extra else 0
+    obs["eager"] = [_label(lb) for lb in (extra or {}).get("eager", [])]
     obs["swallowed"] = sorted(set(ctl.swallowed))
     return obs
 
@@ -342,7 +353,7 @@ def run_blocking(program, config):
     ctl = _NullCtl()
     run = _Run(program, config, ctl)
     _BOX[0] = run
-    schema = _schema(config, _BOX)
+    schema = _schema(config, _BOX, program.get("layout", "distinct"))
     cls = BlockingExecutor if config == "bexec" else Executor
     try:
         res = process_graphql_query(schema, _validated(schema, program, config), root=Obj(run), validators=[],
@@ -354,14 +365,29 @@ def run_blocking(program, config):
 
 
 def run_scheduled(program, config, choose, timeout=None):
-    """one run under `config` in {"aio","pool"}; choose(sorted labels) -> label"""
-    ctl = sched.PoolController() if config == "pool" else sched.LoopController(config == "aiot")
+    """one run under `config` in {"aio","aiot","pool","poole"}; choose(sorted labels) -> label.
+    poole: at every submission the schedule also chooses whether the call completes before
+    submit returns (choose(["0park", "1now"])); offered for a first-level call and for the
+    next level of a call that itself completed that way"""
+    eager = []
+    if config == "poole":
+        def is_eager(lb):
+            if lb[1] > 0 and (lb[0], lb[1] - 1) not in eager:
+                return False
+            if choose(["0park", "1now"]) == "1now":
+                eager.append(lb)
+                return True
+            return False
+        ctl = sched.PoolController(eager=is_eager)
+    else:
+        ctl = sched.PoolController() if config == "pool" else sched.LoopController(config == "aiot")
+    base = "pool" if config == "poole" else config
     try:
-        run = _Run(program, config, ctl)
+        run = _Run(program, base, ctl)
         _BOX[0] = run
-        schema = _schema(config, _BOX)
+        schema = _schema(base, _BOX, program.get("layout", "distinct"))
         schedule = []
-        doc = _validated(schema, program, config)
+        doc = _validated(schema, program, base)
         try:
             with sched.watchdog(timeout):
                 ctl.start(lambda: process_graphql_query(
@@ -369,10 +395,11 @@ def run_scheduled(program, config, choose, timeout=None):
                 schedule = _drive(ctl, choose, schedule)
         except sched.Hang:
             obs = {"hang": True, "events": [[k, _label(lb)] for k, lb in ctl.events],
-                   "schedule": [_label(lb) for lb in schedule], "leftover": 0, "swallowed": []}
+                   "schedule": [_label(lb) for lb in schedule], "leftover": 0, "swallowed": [],
+                   "eager": [_label(lb) for lb in eager]}
             return obs
         return _finish_obs(ctl, ctl.outcome(), ctl.first_outcome(), schedule,
-                           {"leftover": ctl.leftover()})
+                           {"leftover": ctl.leftover(), "eager": eager})
     finally:
         ctl.close()
 
@@ -396,7 +423,7 @@ def run_threads(program, rng, timeout=None):
     try:
         run = _Run(program, "pool", ctl)
         _BOX[0] = run
-        schema = _schema("pool", _BOX)
+        schema = _schema("pool", _BOX, program.get("layout", "distinct"))
         schedule = []
         ok = True
         doc = _validated(schema, program, "pool")
@@ -427,7 +454,7 @@ def cz(n):
 
 
 def c_fld(f, config):
-    d = "(Some (N.to_nat %d))" % f["lv"] if deferred(f, config) else "None"
+    d = "(Some (N.to_nat %d, O))" % f["lv"] if deferred(f, config) else "None"
     return "(Fld %d %s %s %s)" % (f["k"], d, "true" if f["nn"] else "false", c_body(f["b"], config))
 
 
@@ -505,7 +532,8 @@ def c_obs(obs):
         core = "OFailOther"
     else:
         core = "(OData %s [%s])" % (c_val(obs["data"]), "; ".join(c_entry_err(e) for e in obs["errors"]))
-    return "(MkObs [%s] %s [%s] %d %s)" % (
+    return "(MkObs [%s] %s [%s] %d %s [%s])" % (
         "; ".join(c_tid(t) for t in obs["schedule"]), core,
         "; ".join(c_event(e) for e in obs["events"]), obs.get("leftover", 0),
-        "true" if obs.get("changed_after_completion") else "false")
+        "true" if obs.get("changed_after_completion") else "false",
+        "; ".join(c_tid(t) for t in obs.get("eager", [])))
